@@ -131,6 +131,10 @@ def gen_plan(rng, index, tier):
     # hot / cold dimension assignments along the way
     for _ in range(rng.randint(0, 2)):
         steps.insert(rng.randrange(len(steps) + 1), {"op": "setdim", "pick": rng.randrange(100), "factor": rng.choice([0.97, 1.02, 1.1]), "cold": rng.random() < 0.5})
+    # questions asked along the way (the axial expansion changer, height factors ... ask for the
+    # factor between two explicit temperatures): asking must not change any later answer
+    for _ in range(rng.randint(0, 3)):
+        steps.insert(rng.randrange(len(steps) + 1), {"op": "factor", "T0": round(rng.uniform(lo, hi), 2), "Tc": rng.choice([None, None, round(rng.uniform(lo, hi), 2)])})
     cfg["path2"] = path2 + [path2_end]
     cfg["linked"] = rng.random() < 0.6
     if cfg["linked"] and rng.random() < 0.5:
@@ -194,6 +198,12 @@ def execute(plan):
     te_dims = sorted(d for d in type(c).THERMAL_EXPANSION_DIMS if d in c.DIMENSION_NAMES and c.p[d] is not None)
     fluidish = cfg["fluidish"]
     nonzero = bool(c.getNumberDensities()) and sum(float(v) for v in c.getNumberDensities().values()) > 0
+    if not nonzero and not fluidish:
+        # a library solid without a reference composition: the user supplies one; the density law
+        # (number densities follow 1/factor^2) holds for it like for any other solid
+        c.setNumberDensities({"FE56": 0.04, "NI58": 0.011})
+        nonzero = True
+        probes["explicit_composition"] = 1
     companion = None
     if cfg.get("linked") and te_dims:
         from armi.reactor.components import Circle
@@ -264,6 +274,17 @@ def execute(plan):
             temps.add(st["T"])
             log.add("temp", st["T"])
             check(f"step {k}")
+        elif st["op"] == "factor":
+            if fluidish:
+                continue
+            Tc = st.get("Tc")
+            got = float(c.getThermalExpansionFactor(Tc=Tc, T0=st["T0"]))
+            want = lin_factor(c, float(c.temperatureInC) if Tc is None else Tc, st["T0"])
+            if not rel(got, want, 1e-12):
+                fail("C03.dimension", f"step {k}: expansion factor from {st['T0']} C to {Tc if Tc is not None else c.temperatureInC} C is {got}, the material's correlation gives {want}", what="factor-query")
+            probes["factor_queries"] = probes.get("factor_queries", 0) + 1
+            log.add("factor", st["T0"], Tc)
+            check(f"step {k} (after asking for the factor from {st['T0']} C)")
         elif st["op"] == "setdim_link":
             if companion is None or fluidish:
                 continue
@@ -310,17 +331,21 @@ def execute(plan):
             log.add("setdim", d, st["factor"], st["cold"])
             check(f"step {k} (after setDimension)")
     # path independence: a fresh identical component taken along another path to the same end temperature
-    if not any(s["op"] in ("setdim", "setdim_link") for s in plan["steps"]):
+    if not any(s["op"] in ("setdim", "setdim_link") for s in plan["steps"]):  # ("factor" steps change nothing)
         c2 = build(cfg, "c2")
+        if probes.get("explicit_composition"):
+            c2.setNumberDensities({"FE56": 0.04, "NI58": 0.011})
         c2.setTemperature(cfg["Tinput"])
-        for t in cfg["path2"]:
+        # another way to the temperature the first component ended at (whatever steps a minimised
+        # plan still has)
+        for t in cfg["path2"][:-1] + [float(c.temperatureInC)]:
             c2.setTemperature(t)
         if not rel(float(c.getArea()), float(c2.getArea())):
-            fail("C03.path", f"two paths to {cfg['path2'][-1]} C give areas {float(c.getArea())} and {float(c2.getArea())}", what="area")
+            fail("C03.path", f"two paths to {float(c.temperatureInC)} C give areas {float(c.getArea())} and {float(c2.getArea())}", what="area")
         n1, n2 = c.getNumberDensities(), c2.getNumberDensities()
         for nuc in n1:
             if not rel(float(n1[nuc]), float(n2.get(nuc, 0.0)), 1e-9):
-                fail("C03.path", f"two paths to {cfg['path2'][-1]} C give different number densities of {nuc}: {float(n1[nuc])} vs {float(n2.get(nuc, 0.0))}", what="density")
+                fail("C03.path", f"two paths to {float(c.temperatureInC)} C give different number densities of {nuc}: {float(n1[nuc])} vs {float(n2.get(nuc, 0.0))}", what="density")
                 break
         probes["path_independence_checked"] = 1
     probes["fluid_or_custom" if fluidish else "solid"] = 1
